@@ -227,3 +227,56 @@ func Harness_C07(n int, street int, wait int, cur int, op int) {
 	vAssert(vSameStateT(again, out), "C07.serialized-state-is-a-fixed-point")
 	vCover("C07.accepted")
 }
+
+// Harness_C07_Two: two consecutive operations. (A) one in-memory game object lives through both;
+// (B) the stateless backend is called twice (a JSON hop before, between and after). Anything the engine
+// keeps outside the serialized state while handling the first operation and uses in the second makes
+// the two diverge.
+func Harness_C07_Two(n int, street int, cur int, op1 int, op2 int) {
+	s := c07State(n, street, "RoundStarted", cur)
+	pf := pokerface.NewPokerFace()
+	g0 := pf.NewGameFromState(s)
+	p := g0.Player(cur)
+	p.AllowActions(g0.GetAvailableActions(p))
+	amount := func(op int, name string) int64 {
+		if op == 4 || op == 5 || op == 7 {
+			x := vInt64(name)
+			vAssume(x > -4*c07Limit)
+			vAssume(x < 4*c07Limit)
+			return x
+		}
+		return 0
+	}
+	x1 := amount(op1, "amount1")
+	x2 := amount(op2, "amount2")
+	// (A)
+	gA := pf.NewGameFromState(vCloneStateT(s))
+	errA1 := c07Mem(gA, op1, x1)
+	// (B) first hop
+	nb := NewNativeBackend()
+	out1, errB1 := c07Backend(nb, vCloneStateT(s), op1, x1)
+	vAssert((errA1 == nil) == (errB1 == nil), "C07.same-acceptance")
+	if errA1 != nil || errB1 != nil || out1 == nil {
+		return
+	}
+	if gA.GetState().Status.CurrentEvent != "RoundStarted" {
+		return // the round closed: the one-step harness covers what follows
+	}
+	errA2 := c07Mem(gA, op2, x2)
+	out2, errB2 := c07Backend(nb, out1, op2, x2)
+	vAssert((errA2 == nil) == (errB2 == nil), "C07.same-acceptance-second-step")
+	if errA2 != nil || errB2 != nil || out2 == nil {
+		// also the refusal must leave both sides in the same state
+		want := vJSONCloneStateT(gA.GetState())
+		want.UpdatedAt = 0
+		out1.UpdatedAt = 0
+		vAssert(vSameStateT(want, out1), "C07.same-state-after-first-step")
+		vCover("C07.two-refused")
+		return
+	}
+	want := vJSONCloneStateT(gA.GetState())
+	want.UpdatedAt = 0
+	out2.UpdatedAt = 0
+	vAssert(vSameStateT(want, out2), "C07.same-state-after-two-steps")
+	vCover("C07.two-accepted")
+}
